@@ -24,8 +24,8 @@ open(root+'/go.mod','w').write(out)
 PY
 cp /repo/go.sum "$ROOT/go.sum.repo" 2>/dev/null && cat "$ROOT/go.sum.repo" "$ROOT/go.sum.extra" 2>/dev/null | sort -u > "$ROOT/go.sum" || true
 rm -f "$ROOT/go.sum.repo"
-OVERLAY=()
-if [ -f "$ROOT/.detrt/overlay.json" ]; then OVERLAY=(-overlay "$ROOT/.detrt/overlay.json"); fi
+[ -f "$ROOT/.detrt/overlay.json" ] || python3 "$ROOT/detrt/gen.py"
+OVERLAY=(-overlay "$ROOT/.detrt/overlay.json")
 mkdir -p bin
 (
   flock 9
